@@ -121,8 +121,57 @@ func sameResults(a, b []model.ProviderResult) bool {
 	return true
 }
 
+// c19Errors: API errors keep their status and message through
+// encode / decode, whatever the status (also none, also one without a
+// standard text) and however the error is wrapped.
+func c19Errors(r *simkit.Run) {
+	for _, status := range []int{0, 400, 404, 429, 500, 503, 599, 999} {
+		for _, msg := range []string{"", "plain words", "with \"quotes\" and \n newline", strings.Repeat("long ", 400)} {
+			var inner error
+			if msg != "" {
+				inner = errors.New(msg)
+			}
+			var e error = apierror.New(inner, status)
+			for wrap := 0; wrap < 3; wrap++ {
+				if wrap == 1 {
+					e = fmt.Errorf("handler: %w", e)
+				} else if wrap == 2 {
+					e = errors.Join(errors.New("first"), e)
+				}
+				back := apierror.DecodeError(apierror.EncodeError(e))
+				if back == nil {
+					if e.Error() != "" {
+						r.Violate("c19.apierror", "error (status %d, %q, wrap %d) is nil after encode/decode", status, e.Error(), wrap)
+					}
+					continue
+				}
+				if back.Error() != e.Error() {
+					r.Violate("c19.apierror", "message changed by encode/decode: %q vs %q (status %d)", back.Error(), e.Error(), status)
+				}
+				var ae *apierror.Error
+				gotStatus := 0
+				if errors.As(back, &ae) {
+					gotStatus = ae.Status()
+				}
+				if gotStatus != status {
+					r.Violate("c19.apierror", "status changed by encode/decode: %d vs %d (message %q, wrap %d)", gotStatus, status, e.Error(), wrap)
+				}
+			}
+		}
+	}
+	// what a client makes of a response: status and trimmed body
+	for _, status := range []int{400, 404, 500} {
+		e := apierror.FromResponse(status, []byte("  some text\n"))
+		var ae *apierror.Error
+		if !errors.As(e, &ae) || ae.Status() != status || ae.Error() != "some text" || !strings.Contains(ae.Text(), "some text") || !strings.Contains(ae.Text(), fmt.Sprint(status)) {
+			r.Violate("c19.apierror", "FromResponse(%d, body) does not carry status and body text", status)
+		}
+	}
+}
+
 func runC19(r *simkit.Run, c Cfg) {
 	tp := r.Tape
+	c19Errors(r)
 	net := simkit.NewNet(r)
 	http.DefaultTransport = net.Transport()
 	preferJSON := tp.Chance(1, 2, "preferJson")
